@@ -217,6 +217,11 @@ func encodeFrameForAnimation(img image.Image, isLossless bool, quality int) ([]b
 		Lossless: isLossless,
 		Quality:  float32(quality),
 		Method:   4,
+		// Alpha defaults (sentinels): lossless-compressed, fast filter, quality
+		// 100. The zero values would mean raw alpha quantised to two levels.
+		AlphaCompression: -1,
+		AlphaFiltering:   -1,
+		AlphaQuality:     -1,
 	}
 	if isLossless {
 		bs, _, err := encodeLossless(img, opts)
